@@ -446,6 +446,16 @@ fn build(r: &mut StdRng, n: &str, comps: &[Value], valid: bool) -> Built {
                     want_whole = Some(json!({"query": QReq { r: rv, o: None }}));
                     base = "qreq";
                 }
+                // the key itself percent-encoded (one of its letters): the same key
+                "pct_encoded_key" => {
+                    target = format!("/q/req/{}", n);
+                    let rv: u32 = r.gen();
+                    let ov = text_string(r, "reserved");
+                    query.push(format!("{}={}", ["%72", "r"][r.gen_range(0..2)], rv));
+                    query.push(format!("{}={}", ["%6F", "%6f"][r.gen_range(0..2)], enc_query_component(r, &ov)));
+                    want_whole = Some(json!({"query": QReq { r: rv, o: Some(ov) }}));
+                    base = "qreq";
+                }
                 "duplicate_key" => { query.push("qu32=1".into()); query.push("qu32=2".into()); }
                 "unknown_key" => { query.push("zzz=1".into()); }
                 "key_without_value" => { query.push("qu32".into()); }
@@ -487,6 +497,13 @@ fn build(r: &mut StdRng, n: &str, comps: &[Value], valid: bool) -> Built {
                     "float_for_int" => good.replacen(&format!("\"i\":{}", j.i), "\"i\":1.5", 1),
                     "unknown_variant" => good.replacen(if j.e == Color::Red { "\"e\":\"red\"" } else { "\"e\":\"green\"" }, "\"e\":\"blue\"", 1),
                     "missing_field" => { let mut v = serde_json::to_value(&j).unwrap(); v.as_object_mut().unwrap().remove("b"); v.to_string() }
+                    "null_for_required" => {
+                        let mut v = serde_json::to_value(&j).unwrap();
+                        let k = ["s", "i", "u", "b", "v", "e", "k"][r.gen_range(0..7)];
+                        v.as_object_mut().unwrap().insert(k.to_string(), Value::Null);
+                        v.to_string()
+                    }
+                    "whitespace_body" => [" ", "\n", "\t\r\n  "][r.gen_range(0..3)].to_string(),
                     "duplicate_field" => format!("{{\"b\":true,{}", &good[1..]),
                     "truncated" => good[..good.len() - r.gen_range(1..10)].to_string(),
                     "trailing_comma" => format!("{},}}", &good[..good.len() - 1]),
